@@ -33,18 +33,23 @@ MANIFEST_ENTRY = dict(
               'partitioning passes (PartitionAbs.tla, batch trace validation) and as the postcondition of an exhaustively '
               'model-checked L2 model of QuickPartitioner (QuickPart.tla) whose enumerated circuits are replayed into the real pass',
     text='QuickPart.tla (bins, active/pending lists, blocked qudits, dividing line, barrier bins, merge step, the nondeterministic '
-         'set-iteration order of overlapping bins) is model-checked by TLC for every circuit of up to 4 qudits and 4-6 operations of '
-         'arity 1-3 plus barriers, block sizes 2-3: no pending bin is left and the output satisfies the L1 condition (every operation '
-         'once, same order on every qudit, barriers bare and not crossed, width <= max(block size, widest gate inside), parameters and '
-         'locations unchanged). Every partitioner (Quick, Scan, Clustering, Greedy, GroupSingleQuditGate, GTQCP, TDAG), driven directly '
-         'as a coroutine, is run on the TLC-enumerated circuits and on seeded random circuits (width 2-20, depth up to a few hundred in '
-         'thorough, 1/2/3-qudit gates with unique tags and parameters, barriers, measurements, resets, already-blocked inputs, block '
-         'sizes 2-6); every output, and its unfold_all(), is judged by TLC against PartitionRules.',
-    note='Known findings (open): GreedyPartitioner reorders operations and absorbs barriers; Scan/Clustering/GTQCP/TDAG absorb '
-         'barrier-like operations into blocks (see known_findings.d/C08.json). Inputs outside a partitioner\'s documented domain (a gate '
-         'wider than the block size for the region-based partitioners) are not cases. Barriers and resets cannot carry a tag: their '
-         'identity is (kind, location, occurrence). Trusted: TLC, the observation code in harness/checks/c08.py. QuickPart-vs-code '
-         'disagreements are reported as DRIFT, never as violations.',
+         'set-iteration order of overlapping bins) is model-checked by TLC for every circuit of up to 4 operations on 3 qudits and 3 on 4 '
+         'qudits (thorough: 5 and 4), gates of arity 1-3 plus barriers on every qudit set, block sizes 2-3, and for every 7-operation '
+         '(thorough 8) continuation of a scenario that reaches the mid-scan flush; postcondition: no pending bin is left and the output '
+         'satisfies the L1 condition (every operation once, same order on every qudit, barriers bare and not crossed, width <= '
+         'max(block size, widest gate inside), locations and parameters unchanged). Every partitioner (Quick, Scan, Clustering, Greedy, '
+         'GroupSingleQuditGate, GTQCP, TDAG), driven directly as a coroutine, is run on the TLC-enumerated circuits and on seeded random '
+         'circuits (width 2-12, up to 80 operations in quick; width 2-20, up to 700 operations in thorough; 1/2/3-qudit gates with unique '
+         'tags and parameters, barriers, measurements, resets, already-blocked inputs, block sizes 2-6); every output, and its '
+         'unfold_all(), is judged by TLC against PartitionRules. The real QuickPartitioner is compared block by block with the model on '
+         'the enumerated circuits.',
+    note='Known findings (open, known_findings.d/C08.json): QuickPartitioner raises "Unable to process all pending bins" on circuits with '
+         'two barriers (found by TLC on the L2 model, reproduced; the repaired model BarrierFix=TRUE is model-checked in the thorough tier); '
+         'GreedyPartitioner duplicates/reorders operations and absorbs barriers; Scan/Clustering/GTQCP/TDAG absorb barrier-like operations '
+         'into blocks; Greedy/Clustering crash when block_size > width. Inputs with an operation wider than the block size are outside the '
+         'domain of Scan/Clustering/GTQCP/TDAG (they refuse them). Barriers and resets cannot carry a tag: their identity is (kind, '
+         'location, occurrence). Trusted: TLC, the observation code in harness/checks/c08.py. QuickPart-vs-code disagreements are '
+         'reported as DRIFT, never as violations.',
     ref='DESIGN.md section 4 / C08',
 )
 
@@ -288,6 +293,20 @@ def observe(job):
             'out': out, 'unf': unf, 'inleaf': inleaf, 'raised': raised, 'recipe': recipe, 'npseed': npseed, 'cfg_bs': bs}
 
 
+def fit_domain(rec, bs):
+    """Narrow every operation to at most bs qudits (inputs for the passes that refuse wider operations)."""
+    ops = []
+    for o in rec['ops']:
+        if len(o['loc']) > bs:
+            o = dict(o, loc=o['loc'][:bs])
+            if o['k'] == 'blk':
+                o['inner'] = [io for io in o['inner'] if all(q < bs for q in io['loc'])] or [{'k': 'g', 'loc': [0], 'v': 0}]
+                used = {q for io in o['inner'] for q in io['loc']}
+                o['inner'] += [{'k': 'g', 'loc': [q], 'v': 0} for q in range(bs) if q not in used]
+        ops.append(o)
+    return {'nq': rec['nq'], 'ops': ops}
+
+
 def gen_random(rng, max_nq, max_ops, blocked_prob=0.15):
     n = rng.randint(2, max_nq)
     nops = rng.randint(1, max_ops)
@@ -517,8 +536,12 @@ def run(ctx: Ctx) -> Outcome:
                 else:
                     rec = gen_random(rng, 20 if big else 8, (700 if i % 30 == 29 else 200) if big else 40)
                 bs = rng.choice([2, 3, 3, 4, 5, 6] if big else [2, 2, 3, 3, 4])
-                if pn in ('scan', 'gtqcp', 'tdag', 'cluster', 'greedy') and rec['nq'] > 10 and bs > 4:
-                    bs = rng.choice([2, 3, 4])        # region enumeration is combinatorial in the width
+                if pn in ('scan', 'gtqcp', 'tdag', 'cluster', 'greedy') and (rec['nq'] > 8 or len(rec['ops']) > 60) and bs > 3:
+                    bs = rng.choice([2, 3, 4] if pn != 'greedy' else [2, 3])     # region search is combinatorial in width x block size
+                if pn == 'greedy' and len(rec['ops']) > 250:
+                    rec['ops'] = rec['ops'][:250]
+                if pn in ('scan', 'gtqcp', 'tdag', 'cluster') and rng.random() < 0.85:
+                    rec = fit_domain(rec, bs)         # these passes refuse operations wider than the block size
                 jobs.append((rec, pn, bs, rng.randrange(2 ** 31)))
                 srcs.append('random')
 
